@@ -71,7 +71,7 @@ def scenario(sim: Sim) -> None:
     api = fakes.FakeMicrogridApi(sim, comps, conns)
     fakes.install_connection_manager(api)
 
-    rounds = ch.int_between("rounds", 8, 30)
+    rounds = ch.int_between("rounds", 8, sim.scale(30, 70))
     # ---- fault plan for primaries: per term a few failure bursts; optionally a close
     plan: dict[tuple[int, int], str] = {}
     for t in terms:
